@@ -10,7 +10,7 @@
 //             where = start: the same at user_start (slots are `initializing`),
 //             where = int  : the n-th interaction of the event throws inside the interaction
 //             kernel (some slots have interacted, others not)
-//             letters: X0.1.post, X2.2.post, X2.2.start, X0.2.int
+//             letters: X0.2.post, X2.4.post, X2.2.start, X0.2.int
 //   V         reseed(0), a Stepper call whose primaries carry the invalid event id max_events
 //             (rejected with an exception), reset_state()
 //   W         warm_up() (first letter only)
@@ -325,8 +325,8 @@ int main(int argc, char** argv)
         for (unsigned k : {1u, 3u})
             alphabet.push_back({'A', e, k, ""});
     alphabet.push_back({'W', 0, 0, ""});
-    alphabet.push_back({'X', 0, 1, "post"});
-    alphabet.push_back({'X', 2, 2, "post"});
+    alphabet.push_back({'X', 0, 2, "post"});
+    alphabet.push_back({'X', 2, 4, "post"});
     alphabet.push_back({'X', 2, 2, "start"});
     alphabet.push_back({'X', 0, 2, "int"});
     alphabet.push_back({'V', 0, 0, ""});
@@ -605,9 +605,9 @@ int main(int argc, char** argv)
             R.end_case();
         }
     }
-    R.sample("o3.t1.c1.s2.fieldmscfluct.g1|X2.2.post,E1 = reindex_particle_type + action timing + "
+    R.sample("o3.t1.c1.s2.fieldmscfluct.g1|X2.4.post,E1 = reindex_particle_type + action timing + "
              "status checker, 2 slots, field, box-in-box: event 2 is aborted by a user action "
-             "throwing at its 2nd user_post invocation, reset_state(), run event 1, then probe "
+             "throwing at its 4th user_post invocation, reset_state(), run event 1, then probe "
              "events 0,1,2: each must equal its fresh-state step history, StepperResult sequence "
              "and tallies");
     return R.finish();
